@@ -65,6 +65,7 @@ func c15ExactFirst(c *Check, a *Anchors) {
 	var matches *types.Var
 	var firstIf *ast.IfStmt
 	var aliasLoop *ast.RangeStmt
+	var aliasInfo *types.Info
 	for _, s := range gt.Body.List {
 		switch x := s.(type) {
 		case *ast.AssignStmt:
@@ -77,11 +78,47 @@ func c15ExactFirst(c *Check, a *Anchors) {
 			if firstIf == nil && matches != nil && strings.Contains(exprStr(x.Cond), "len("+matches.Name()+") > 0") {
 				firstIf = x
 			}
-		case *ast.RangeStmt:
-			if call, ok := ast.Unparen(x.X).(*ast.CallExpr); ok && (isFunc(callee(ginfo, call), PkgAst, "Tasks", "Values") || isFunc(callee(ginfo, call), PkgAst, "Tasks", "All")) {
-				aliasLoop = x
-			}
 		}
+	}
+	// the alias scan: a loop over Tasks.Values/All in GetTask itself or in a helper it delegates to
+	var aliasPos token.Pos
+	for _, g := range c.P.groupOf(gt, 2) {
+		if g == fm || (fm != nil && c.P.ReachableFrom([]*FuncBody{fm}, nil)[g]) {
+			continue
+		}
+		inspectBody(g.Body, func(nd ast.Node) bool {
+			x, ok := nd.(*ast.RangeStmt)
+			if !ok || aliasLoop != nil {
+				return true
+			}
+			if call, ok := ast.Unparen(x.X).(*ast.CallExpr); ok && (isFunc(callee(g.Info(), call), PkgAst, "Tasks", "Values") || isFunc(callee(g.Info(), call), PkgAst, "Tasks", "All")) {
+				usesAliases := false
+				inspectBody(x.Body, func(m ast.Node) bool {
+					if sel, ok := m.(*ast.SelectorExpr); ok && fieldSel(g.Info(), sel, PkgAst, "Task", "Aliases") {
+						usesAliases = true
+					}
+					return true
+				})
+				if !usesAliases {
+					return true
+				}
+				aliasLoop, aliasInfo = x, g.Info()
+				c.Fn(g)
+				if g == gt {
+					aliasPos = x.Pos()
+				} else {
+					// position of the delegating call in GetTask
+					for _, call := range callsIn(gt, false) {
+						if fn, ok := callee(ginfo, call).(*types.Func); ok {
+							if d := c.P.DeclOf(fn); d != nil && (d == g || c.P.ReachableFrom([]*FuncBody{d}, nil)[g]) {
+								aliasPos = call.Pos()
+							}
+						}
+					}
+				}
+			}
+			return true
+		})
 	}
 	name := fnDisplay(gt)
 	okFirst := false
@@ -89,7 +126,7 @@ func c15ExactFirst(c *Check, a *Anchors) {
 		for _, r := range returnsOf(firstIf.Body) {
 			if len(r.Results) == 2 {
 				if sel, ok := ast.Unparen(r.Results[0]).(*ast.SelectorExpr); ok {
-					if ix, ok := ast.Unparen(sel.X).(*ast.IndexExpr); ok && exprStr(ix.Index) == "0" && varOf(ginfo, ix.X) == matches {
+					if ix, ok := ast.Unparen(sel.X).(*ast.IndexExpr); ok && constIs(ginfo, ix.Index, "0") && varOf(ginfo, ix.X) == matches {
 						okFirst = true
 					}
 				}
@@ -97,10 +134,10 @@ func c15ExactFirst(c *Check, a *Anchors) {
 		}
 	}
 	c.Decide(okFirst, "exact-first", "first-match-wins@"+name, gt.Decl.Pos(), "returns matches[0].Task when there is any match", "GetTask no longer returns the first element of the match list when a match exists")
-	okAlias := aliasLoop != nil && firstIf != nil && firstIf.End() < aliasLoop.Pos()
+	okAlias := aliasLoop != nil && firstIf != nil && aliasPos.IsValid() && firstIf.End() < aliasPos
 	if aliasLoop != nil {
 		call := ast.Unparen(aliasLoop.X).(*ast.CallExpr)
-		okAlias = okAlias && len(call.Args) == 1 && isNilLit(ginfo, call.Args[0])
+		okAlias = okAlias && len(call.Args) == 1 && isNilLit(aliasInfo, call.Args[0])
 	}
 	c.Decide(okAlias, "exact-first", "alias-last@"+name, gt.Decl.Pos(), "the alias scan follows the returning match test and iterates in definition order", "aliases are consulted before (or without) the exact/wildcard match test, or in sorter order")
 	// error classes
@@ -126,16 +163,18 @@ func c15ExactFirst(c *Check, a *Anchors) {
 		}
 		return true
 	})
-	inspectBody(gt.Body, func(nd ast.Node) bool {
-		if call, ok := nd.(*ast.CallExpr); ok {
-			if fn, ok := callee(ginfo, call).(*types.Func); ok && fn.Name() == "SpellCheck" {
-				if sel, ok := ast.Unparen(call.Fun).(*ast.SelectorExpr); ok && fieldSel(ginfo, sel.X, PkgTask, "Executor", "fuzzyModel") {
-					suggestion = true
+	for _, g := range c.P.groupOf(gt, 2) {
+		inspectBody(g.Body, func(nd ast.Node) bool {
+			if call, ok := nd.(*ast.CallExpr); ok {
+				if fn, ok := callee(g.Info(), call).(*types.Func); ok && fn.Name() == "SpellCheck" {
+					if sel, ok := ast.Unparen(call.Fun).(*ast.SelectorExpr); ok && fieldSel(g.Info(), sel.X, PkgTask, "Executor", "fuzzyModel") {
+						suggestion = true
+					}
 				}
 			}
-		}
-		return true
-	})
+			return true
+		})
+	}
 	c.Decide(conflict, "exact-first", "alias-conflict-203@"+name, gt.Decl.Pos(), "more than one alias hit -> *TaskNameConflictError", "ambiguous aliases no longer yield *TaskNameConflictError under `> 1`")
 	c.Decide(notFound && suggestion, "exact-first", "not-found-200@"+name, gt.Decl.Pos(), "no hit -> *TaskNotFoundError with fuzzyModel.SpellCheck", fmt.Sprintf("an unknown name no longer yields *TaskNotFoundError with the fuzzy suggestion (not found: %v, suggestion from the model: %v)", notFound, suggestion))
 }
@@ -162,7 +201,7 @@ func c15PatternLiteral(c *Check, a *Anchors) {
 	var parts *types.Var
 	inspectBody(fb.Body, func(nd ast.Node) bool {
 		if as, ok := nd.(*ast.AssignStmt); ok && len(as.Rhs) == 1 {
-			if call, ok := ast.Unparen(as.Rhs[0]).(*ast.CallExpr); ok && isFunc(callee(info, call), "strings", "", "Split") && len(call.Args) == 2 && fieldSel(info, call.Args[0], PkgAst, "Task", "Task") && exprStr(call.Args[1]) == `"*"` {
+			if call, ok := ast.Unparen(as.Rhs[0]).(*ast.CallExpr); ok && isFunc(callee(info, call), "strings", "", "Split") && len(call.Args) == 2 && fieldSel(info, call.Args[0], PkgAst, "Task", "Task") && constIs(info, call.Args[1], `"*"`) {
 				parts = varOf(info, as.Lhs[0])
 			}
 		}
@@ -246,20 +285,32 @@ func c15PatternLiteral(c *Check, a *Anchors) {
 		}
 		n++
 		st := f.At[r]
-		fromMatch := false
-		if v := varOf(info, r.Results[1]); v != nil {
-			for _, d := range defsOf(info, fb.Body, v) {
-				ast.Inspect(d, func(m ast.Node) bool {
-					if call, ok := m.(*ast.CallExpr); ok && f.Labels[call] == "regexp-match" {
-						fromMatch = true
+		var derives func(e ast.Expr, depth int) bool
+		derives = func(e ast.Expr, depth int) bool {
+			found := false
+			ast.Inspect(e, func(m ast.Node) bool {
+				if found {
+					return false
+				}
+				switch x := m.(type) {
+				case *ast.CallExpr:
+					if f.Labels[x] == "regexp-match" {
+						found = true
 					}
-					if id, ok := m.(*ast.Ident); ok && info.Uses[id] == v {
-						fromMatch = fromMatch || false
+				case *ast.Ident:
+					if v, ok := info.Uses[x].(*types.Var); ok && depth > 0 && !v.IsField() {
+						for _, d := range defsOf(info, fb.Body, v) {
+							if d != e && derives(d, depth-1) {
+								found = true
+							}
+						}
 					}
-					return true
-				})
-			}
+				}
+				return true
+			})
+			return found
 		}
+		fromMatch := derives(r.Results[1], 3)
 		c.Decide(st.Has("called:regexp-match") && fromMatch, "pattern-literal", fmt.Sprintf("match-by-regexp#%d@%s", i+1, name), r.Pos(), "`true` is returned only after the anchored regexp matched; wildcards are its sub-matches",
 			"WildcardMatch can answer `true` on a path that did not consult the anchored regexp (or returns wildcards that are not its sub-matches): such a shortcut is not equivalent for overlapping prefix/suffix, so a wrong task matches")
 	}
